@@ -56,6 +56,23 @@ SPECS = [
              "i18n_at('h1', 'target_language') is val(1)",
              "i18n_now('target_language') is i18n0('target_language')",
          ], raises={'*': {'ensures': ["raised('h1') or raised('e1')"]}}, serves=['C10']),
+    dict(id='S-I18nAttributes',
+         # "The same contract holds for attributes named in i18n:attributes": translated once, with the
+         # explicit id, the static text as default, and the domain / context / TARGET LANGUAGE of the
+         # nearest enclosing element
+         text='A<div i18n:target="e1" i18n:domain="d"><p title="t  x" i18n:attributes="title mid">y</p></div>B',
+         ensures=[
+             "evals(1) == 1", "translate_calls() == 1",
+             "translate_arg(0, 'msgid') == 'mid'",
+             "translate_arg(0, 'default') == 't  x'",
+             "translate_arg(0, 'domain') == 'd'",
+             "translate_arg(0, 'context') is i18n0('context')",
+             "translate_arg(0, 'target_language') is val(1)",
+             # (A-TRANSLATE: the translation function returns a str or None)
+             "not is_exact(translate_result(0), str) or "
+             "S() == S0() + 'A<div><p title=\"' + piece(translate_result(0)) + '\">y</p></div>B'",
+             "translate_result(0) is not None or S() == S0() + 'A<div><p>y</p></div>B'",
+         ], raises={'*': {'ensures': ["raised('e1')"]}}, serves=['C10']),
 ]
 
 CONTRACTS = schema_contracts(SPECS)
